@@ -12,6 +12,8 @@ mod offsets;
 mod names;
 mod config;
 mod reach;
+mod builder;
+mod replace;
 
 fn main() {
     let args: Vec<String> = std::env::args().collect();
@@ -36,6 +38,8 @@ fn main() {
         "offsets" => offsets::offsets(&args[2..]),
         "names" => names::names(&args[2..]),
         "config" => config::config(&args[2..]),
+        "builder" => builder::builder(&args[2..]),
+        "replace" => replace::replace(&args[2..]),
         other => {
             eprintln!("unknown subcommand {other}");
             exit(2)
